@@ -164,6 +164,10 @@ func cmdCliCheck(args []string) {
 		if r.Intn(6) == 0 { // metadata with characters that matter to formatting / escaping
 			c.Text = c.Text + "\n" + pick(r, []string{`set_tx_meta("note", "fee 15% of total %d %s")`, `set_account_meta(@a, "discount", "100%")`, `set_tx_meta("q", "say \\\"hi\\\" C:\\temp")`})
 		}
+		if r.Intn(15) == 0 {
+			// the smallest scripts: nothing at all, a newline, a comment, an empty vars block
+			c.Text = pick(r, []string{"", "\n", "// nothing to do\n", "vars {\n}\n", "/* c */"})
+		}
 		if r.Intn(8) == 0 {
 			// a long input (several kilobytes on whichever channel carries it): a comment and a long metadata value
 			c.Text = "/* " + strings.Repeat("padding of the script, line after line. ", 80) + "*/\n" + c.Text +
